@@ -195,7 +195,14 @@ def tx_scripts(rng, kind, al, sc, lens):
     elif kind == "bal":
         for n in lens:
             d = rng.bytes(n)
-            s += ["send " + hx(d), "run", "rx " + (hx(b"\xe5") if sc and rng.chance(1, 2) else hx(L.fixed(al, L.ctrl(0), own)))]
+            if rng.chance(1, 3):
+                # the acknowledgement does not come; meanwhile the peer's own primary traffic is received and answered (the station's
+                # frame buffer is used for it); after the acknowledgement timeout the frame is repeated: still a well-formed frame
+                pf = rng.choice([L.variable(al, L.ctrl(3, prm=1, fcb_acd=rng.below(2), fcv_dfc=1), own, rng.bytes(rng.range(1, 40))),
+                                 L.fixed(al, L.ctrl(2, prm=1, fcb_acd=rng.below(2), fcv_dfc=1), own), L.fixed(al, L.ctrl(9, prm=1), own)])
+                s += ["send " + hx(d), "run", "rx " + hx(pf), "run", "tick 250", "run", "run", "rx " + hx(L.fixed(al, L.ctrl(0), own)), "run"]
+            else:
+                s += ["send " + hx(d), "run", "rx " + (hx(b"\xe5") if sc and rng.chance(1, 2) else hx(L.fixed(al, L.ctrl(0), own)))]
             meta.append(d)
         for fc in range(16):
             s.append("rx " + hx(L.fixed(al, L.ctrl(fc, prm=1), own)))
